@@ -85,6 +85,14 @@ def special_packets(rnd):
                     u = P.udp(rnd, body, csum=f)
                     out.append(('IPv6-UDP-CoAP' if v6 else 'IPv4-UDP-CoAP', (P.ipv6(rnd, u, 17, src, dst) if v6 else P.ipv4(rnd, u, 17, src, dst))))
                     break
+    # the two explicit stacks do not look at the next header / protocol field: a datagram behind extension-header or other numbers (0, 43,
+    # 60, 6 ...) whose UDP checksum is the RFC 768 one (upper-layer protocol 17 in the pseudo-header) is regenerated just the same
+    for v6 in (True, False):
+        for nh in (0, 6, 43, 60, 132, 255):
+            src, dst = (rnd.randbytes(16), rnd.randbytes(16)) if v6 else (rnd.randbytes(4), rnd.randbytes(4))
+            c, _ = P.coap(rnd)
+            u = P.udp(rnd, c, csum=(lambda x: P.udp_checksum_v6(src, dst, x)) if v6 else (lambda x: P.udp_checksum_v4(src, dst, x)))
+            out.append(('IPv6-UDP-CoAP' if v6 else 'IPv4-UDP-CoAP', P.ipv6(rnd, u, nh, src, dst) if v6 else P.ipv4(rnd, u, nh, src, dst)))
     return out
 
 
